@@ -73,7 +73,69 @@ impl Leg for Iter {
     }
 }
 
+/// bytes -> a valid UTF-8 string for the Python legs: ASCII kept (0..3 become 'N'), bytes >= 0x80
+/// become a two-byte character (so non-ASCII characters do occur)
+pub fn utf8_safe(seq: &[u8]) -> Vec<u8> {
+    let mut out = Vec::with_capacity(seq.len());
+    for &b in seq {
+        if b < 4 {
+            out.push(b'N');
+        } else if b < 0x80 {
+            out.push(b);
+        } else {
+            let c = char::from_u32(0x100 + (b as u32 - 0x80) * 3).unwrap();
+            let mut buf = [0u8; 4];
+            out.extend_from_slice(c.encode_utf8(&mut buf).as_bytes());
+        }
+    }
+    out
+}
+
+pub fn parse_tuples_u64(r: &serde_json::Value, arity: usize) -> Result<Vec<Vec<u64>>, String> {
+    let a = r["ok"].as_array().ok_or_else(|| format!("python answered {}", crate::util::trunc(&r.to_string(), 200)))?;
+    a.iter()
+        .map(|t| {
+            let t = t.as_array().ok_or("not a tuple")?;
+            if t.len() != arity {
+                return Err(format!("tuple of {} components", t.len()));
+            }
+            t.iter().map(|x| x.as_u64().ok_or_else(|| "not an unsigned integer".to_string())).collect()
+        })
+        .collect()
+}
+
+/// the Python iterator (pykmertools.KmerGenerator) against the model
+pub struct Python;
+impl Leg for Python {
+    type Case = Case;
+    const NAME: &'static str = "python";
+    fn strategy(tier: Tier) -> BoxedStrategy<Case> {
+        Iter::strategy(tier)
+    }
+    fn check(c: &Case) -> Verdict {
+        let mut v = Verdict::new();
+        let seq = utf8_safe(&c.seq);
+        let want = model::windows(&seq, c.k);
+        v.class("python");
+        v.class_if(seq.iter().any(|&b| b >= 0x80), "non-ascii");
+        v.nontrivial = !want.is_empty() && (c.k >= 16 || seq.iter().any(|&b| !model::is_base(b)));
+        match crate::pyworker::ask(&serde_json::json!({"op": "kmers", "k": c.k, "seq": crate::pyworker::hex(&seq)})).and_then(|r| parse_tuples_u64(&r, 2)) {
+            Err(e) => v.fail("python-worker", e),
+            Ok(got) => {
+                let w: Vec<Vec<u64>> = want.iter().map(|x| vec![x.1, x.2]).collect();
+                if got != w {
+                    let pos = got.iter().zip(w.iter()).position(|(a, b)| a != b);
+                    v.fail("python-iterator-differs", format!("pykmertools.KmerGenerator yields {} items, model {}; first difference at {:?} (k={})", got.len(), w.len(), pos, c.k));
+                }
+            }
+        }
+        v
+    }
+}
+
 pub fn run(ctx: &mut Ctx) {
+    let n = ctx.share(ctx.tier.pick(30_000, 400_000));
+    ctx.run_leg::<Python>(n, false, 1000);
     let n = ctx.share(ctx.tier.pick(200_000, 4_000_000));
     ctx.run_leg::<Iter>(n, false, 4000);
 }
@@ -81,6 +143,7 @@ pub fn run(ctx: &mut Ctx) {
 pub fn replay(leg: &str, case: &serde_json::Value) -> Option<Result<Verdict, String>> {
     match leg {
         "iter-vs-model" => Some(crate::engine::replay_leg::<Iter>(case)),
+        "python" => Some(crate::engine::replay_leg::<Python>(case)),
         _ => None,
     }
 }
